@@ -426,6 +426,36 @@ def r2(ctx: Ctx):
                  ' later element is silently lost', node=c)
       else:
         ctx.ok(rule, fi, f'{unparse(c)[:70]}: kinds {sorted(ks)}', c)
+  # the mapping skip wrapper: its INPUT iterator must survive an error as well
+  for fi in repo.all_functions():
+    if not fi.module.name.endswith(('iter_utils', 'tree_fns', 'io', 'transform')):
+      continue
+    for c in walk_no_nested(fi.node):
+      callee = unparse(c.func).split('.')[-1] if isinstance(c, ast.Call) else ''
+      target = None
+      if callee == 'map_ignore_error' and len(c.args) >= 2:
+        target = c.args[1]
+      elif isinstance(c, ast.Call) and isinstance(c.func, ast.Name) and len(c.args) >= 2:
+        # alias: map_ = map_ignore_error if flag else map
+        defs = [x.value for x in walk_no_nested(fi.node) if isinstance(x, ast.Assign) and any(
+            isinstance(t, ast.Name) and t.id == c.func.id for t in x.targets)]
+        if any('map_ignore_error' in unparse(d) for d in defs):
+          target = c.args[1]
+      if target is None:
+        continue
+      n += 1
+      kinds.trace = []
+      ks = kinds.of_expr(target, fi)
+      if 'generator' in ks:
+        how = 'always' if ks <= {'generator'} else 'with some batching options'
+        ctx.fail(rule, fi, f'{fi.qualname}: map_ignore_error(fn, <input iterator that is {how} a generator>)',
+                 f'the error-skipping map draws from `{unparse(target)}`, which is {how} a'
+                 f' generator object ({"; ".join(kinds.trace[-2:])}): an error raised while'
+                 ' producing an INPUT (a failing data-source record) travels through'
+                 ' that generator and finishes it, so every later element is'
+                 ' silently lost although skipping is enabled', node=c)
+      else:
+        ctx.ok(rule, fi, f'{fi.qualname}: skip-map input kinds {sorted(ks)}', c)
   # callable aliases: iter_ = iter_ignore_error if flag else iter ; iter_(X)
   si = repo.func(IO, 'SequenceIterator.__init__')
   for c in walk_no_nested(si.node):
